@@ -45,6 +45,12 @@ PPL::Grid::Grid(const Grid& y, Complexity_Class)
     con_sys = y.con_sys;
     gen_sys = y.gen_sys;
   }
+  else if (y.marked_empty()) {
+    // An empty grid keeps its unsatisfiable congruence system
+    // (no description is flagged up-to-date in its status).
+    con_sys = y.con_sys;
+    gen_sys = Grid_Generator_System(y.space_dim);
+  }
   else {
     if (y.congruences_are_up_to_date()) {
       con_sys = y.con_sys;
